@@ -137,8 +137,7 @@ def check(rep, ctx):
                     q, issues = timeflow.read_side(rdsc["conv"], bits, kind)
                     fn = rdsc.get("_codec", "?")
                     if q is None:
-                        rep.check(R_E, False, construct=fn, stmt=timeflow.show(rdsc["conv"]),
-                                  message=f"time conversion not understood: {timeflow.show(rdsc['conv'])}", instance=construct)
+                        rep.limit(f"{fn}: time conversion not understood: {timeflow.show(rdsc['conv'])[:160]}")
                     elif issues:
                         for rule, msg, op in issues:
                             rep.check(R_E, False, construct=fn, stmt=timeflow.show(rdsc["conv"]), message=f"{rule}: {msg}",
